@@ -276,8 +276,14 @@ func doRun(p *props.Property, tier string, seed uint64, shards int, known *findi
 		PropertyID: p.ID, Tier: tier, Seed: int64(seed), Level: p.Level, Coverage: cov,
 		Assumptions: p.Assumptions, WallS: time.Since(start).Seconds(), Violations: nviol,
 	}
-	os.MkdirAll(filepath.Join(props.Root, "evidence"), 0o755)
-	if err := ev.Write(filepath.Join(props.Root, "evidence", p.ID+".json"), e); err != nil {
+	// (VERIF_EVIDENCE_DIR: runs against a seeded change, tools/tryseed.py, keep
+	// their evidence apart from that of the tree)
+	evDir := filepath.Join(props.Root, "evidence")
+	if d := os.Getenv("VERIF_EVIDENCE_DIR"); d != "" && os.Getenv("VERIF_STICK_DIR") != "" {
+		evDir = d
+	}
+	os.MkdirAll(evDir, 0o755)
+	if err := ev.Write(filepath.Join(evDir, p.ID+".json"), e); err != nil {
 		fatal(err.Error())
 	}
 	fmt.Printf("%s %s seed=%d: evaluations=%d distinct_nontrivial=%d violations=%d known_suppressed=%v wall=%.1fs\n",
